@@ -6,7 +6,7 @@ import ast
 from ..core import Run, AnalysisError, dotted, norm
 from ..dim import World
 from ..flow import CFG, Fn, node_calls, conditions_for, stmt_of
-from .collectors import CE, run_collector_rules, homomorphism, returned_pairs, _fn, ops_in_slice
+from .collectors import CE, run_collector_rules, homomorphism, returned_pairs, _fn, ops_in_slice, sum_like_discipline
 from .c05 import sum_like_rules, _has_raise_under, _calls
 
 EXPLANATION = (
@@ -57,7 +57,7 @@ def check(run: Run) -> None:
                 run.violate("S1", f"{mod.name}:{fn.name}:dimension-ignores:{','.join(missing_d)}", mod, r.ast, f"the dimension returned by the {cls} handler does not depend on {missing_d}")
     # S3
     ud = _fn(mod, "_collect_unique_dimension")
-    sum_like_rules(run, mod, ud, "common-dimension")
+    sum_like_discipline(run, mod, ud, "common-dimension", "collect_expression_and_dimension")
     run.ob("S3", "common-dimension:raises-UnitsError")
     loops = [s for s in ast.walk(ud) if isinstance(s, ast.For)]
     for lp in loops:
